@@ -117,6 +117,42 @@ def extra_C14(tier, seed, scratch, cfg, out):
                 im.close()
         if hits:
             break
+    # reads on an index that holds no node at all (fresh without rules, or just cleared): nothing to find, nothing to write
+    if not hits:
+        r = random.Random(seed * 7907 + 14400)
+        for backend in ("file", "mem"):
+            for variant in range(3):
+                im = Impl(scratch)
+                try:
+                    ses = Session(im, r, dict(PROFILES["C14"]), backend=backend, cfg=cfg)
+                    lines = ["init %s %s [] %s" % (backend, r.choice(["never", "domain", "path1"]), cfg)]
+                    if variant == 1:
+                        lines += ["addpage %s 1" % hx(ses.new_lru()), "clear - []"]
+                    if variant == 2:
+                        lines += ["create %s" % brack([hx(ses.new_lru())]), "clear never []"]
+                    for l in lines:
+                        im.exec(l)
+                    qs = []
+                    for _ in range(6):
+                        l = hx(ses.new_lru())
+                        qs += ["? retrievewe " + l, "? retrieveprefix " + l, "? potential " + l, "? webyprefix " + l,
+                               "? pages 1 [%s]" % l, "? lrunode " + l, "? pagelinksof %s 1 1 1" % l]
+                    qs += ["? pagesiter", "? prefixiter", "? linksiter 1", "? network 1 1 0", "? dfs", "? counts", "? metrics"]
+                    for k, q in enumerate(qs):
+                        before = im.images()
+                        ans, nw, _ = im.exec(q)
+                        reads += 1
+                        if im.images() != before or nw:
+                            hits.append({"kind": "query-modifies-store", "lines": lines + qs[: k + 1], "backend": backend,
+                                         "finding": {"line": q, "answer": ans[:300], "storage_writes": nw,
+                                                     "reason": "a read-only request on an index without any node changed the stored bytes"}})
+                            break
+                finally:
+                    im.close()
+                if hits:
+                    break
+            if hits:
+                break
     # reads on reopened crash-cut states (a torn long-stem node is a reachable on-disk state, C18) must not write either
     cut_reads = 0
     if not hits:
